@@ -18,6 +18,7 @@ import vlib
 _GROUP_START = ('{"ev":"World"', '{"ev":"Init"', '{"ev":"Start"', '{"ev":"Conflict"', '{"ev":"Pipe"', '{"ev":"Mut"', '{"ev":"Cli"')
 # events that describe the model side of an M1 / M2 / M3 trace: corrupting them changes the question, not the answer
 _MODEL_EVENTS = ('World', 'Init', 'Start', 'Op')
+_OUTCOMES = ('ok', 'error', 'result', 'empty')
 _MAX_CHUNKS = 6
 _MAX_LINES = 400
 
@@ -42,16 +43,22 @@ def _paths(x, prefix=''):
                 yield (prefix + '[]', x, i, 'leaf')
 
 
-def _corrupt(ev, pools, rnd):
-    """Changes one leaf (or list) of the event in place; returns the path or None."""
+def _corrupt(ev, pools, rnd, safe=False):
+    """Changes one leaf (or list) of the event in place; returns the path or None.
+    safe: only corruptions that cannot leave the shape the harness emits (no integer swaps - indices, lengths -, list edits
+    only on collections of records / strings, not on fixed-shape arrays of numbers, booleans or arrays)."""
     cands = list(_paths(ev))
     rnd.shuffle(cands)
     for path, cont, key, kind in cands:
         if path in ('.ev',):
             continue
         old = cont[key]
+        if safe and kind == 'leaf' and isinstance(old, int) and not isinstance(old, bool):
+            continue
         if kind == 'list':
             if len(old) == 0:
+                continue
+            if safe and not all(isinstance(x, (dict, str)) for x in old):
                 continue
             if rnd.random() < 0.5 or len(old) == 1:
                 cont[key] = old[:-1]
@@ -62,6 +69,8 @@ def _corrupt(ev, pools, rnd):
             cont[key] = not old
             return path + ':flip'
         pool = [v for v in pools.get((ev.get('ev'), path), ()) if v != old and type(v) is type(old)]
+        if isinstance(old, str) and old in _OUTCOMES and rnd.random() < 0.3:
+            pool = ['panic']          # the unchanged tree never panics: the crash reporters are exercised by injection
         if not pool:
             continue
         cont[key] = rnd.choice(pool)
@@ -69,7 +78,7 @@ def _corrupt(ev, pools, rnd):
     return None
 
 
-def corrupt_trace(src, dst, rnd):
+def corrupt_trace(src, dst, rnd, safe=False):
     """Writes a corrupted copy of (a prefix of) the trace; returns {first line of group: (line, event, path)}."""
     lines = []
     with open(src) as f:
@@ -95,6 +104,10 @@ def corrupt_trace(src, dst, rnd):
         cur.append(i)
     if cur:
         groups.append(cur)
+    # long case groups (an engine history, a register-machine sequence: observations of one step do not carry over to the
+    # next) are cut into pieces of six lines, each corrupted and judged on its own
+    if groups and sum(len(g) for g in groups) / len(groups) > 12:
+        groups = [g[k:k + 6] for g in groups for k in range(0, len(g), 6)]
     done = {}
     for g in groups:
         one_event_case = len(g) == 1
@@ -102,7 +115,7 @@ def corrupt_trace(src, dst, rnd):
         if not cand:
             continue
         i = rnd.choice(cand)
-        path = _corrupt(evs[i], pools, rnd)
+        path = _corrupt(evs[i], pools, rnd, safe)
         if path:
             done[g[0] + 1] = (i + 1, evs[i].get('ev'), path, g[-1] + 1)
     with open(dst, 'w') as f:
@@ -116,25 +129,47 @@ class Collector:
         self.fields = collections.defaultdict(lambda: [0, 0])     # (module, event, path) -> [rejected, total]
         self.crashes = []
         self.genuine_rejections = 0
+        self.artefacts = 0
         self.traces = 0
 
 
 def wrap(col, rnd):
     orig = vlib.validate_traces
 
-    def wrapped(module, shards, timeout=3000, cfg=None, extra_env=None):
+    def wrapped(module, shards, timeout=9000, cfg=None, extra_env=None):
         res = orig(module, shards, timeout=timeout, cfg=cfg, extra_env=extra_env)
         col.genuine_rejections += len(res['mismatches'])
         chunks = [c for c in res['shards'] if os.path.getsize(c) > 0]
         rnd.shuffle(chunks)
         for ch in chunks[:_MAX_CHUNKS]:
-            dst = ch + '.corrupt.ndjson'
-            done = corrupt_trace(ch, dst, rnd)
+            # (kept away from the directories the checks glob for shards)
+            dst = os.path.join(vlib.sub('selftest-corrupt'), '%d-%s' % (col.traces, os.path.basename(ch)))
             col.traces += 1
-            try:
-                r2 = orig(module, [dst], timeout=timeout, cfg=cfg, extra_env=extra_env)
-            except vlib.Infra as e:
-                col.crashes.append(dict(module=module, trace=dst, error=str(e)[:1500]))
+            r2 = None
+            for safe in (False, True):
+                done = corrupt_trace(ch, dst, rnd, safe)
+                try:
+                    r2 = orig(module, [dst], timeout=timeout, cfg=cfg, extra_env=extra_env)
+                    break
+                except vlib.Infra as e:
+                    msg = str(e)
+                    # Two kinds of TLC failure. (1) An observation of a shape the harness cannot emit (an index outside a fixed-shape
+                    # array, a peer whose redundant fields - key, index, type tag - no longer agree): an artefact of the corruption;
+                    # retried once in safe mode, then dropped. (2) A type confusion inside the specification (values of different
+                    # types compared while a mismatch set is built): a reporter that cannot report - this is what the self-test is for.
+                    confusion = any(t in msg for t in ('Attempted to compare', 'Attempted to check equality', 'Attempted to check set membership',
+                                                       'cannot be compared', 'not comparable', 'Attempted to compute'))
+                    if not confusion:
+                        col.artefacts += 1
+                        if not safe:
+                            continue
+                        break
+                    col.crashes.append(dict(module=module, trace=dst, safe_mode=safe, error=msg[:1500]))
+                    break
+            for junk in (dst, dst + '.tlcout'):
+                if os.path.exists(junk) and not any(c['trace'] == dst for c in col.crashes):
+                    os.remove(junk)
+            if r2 is None:
                 continue
             bad_lines = sorted(mm['line'] for (_, mm) in r2['mismatches'])
             for first, (line, evname, path, last) in done.items():
@@ -177,13 +212,13 @@ def main(argv):
         total = sum(r['corrupted'] for r in rows)
         rejected = sum(r['rejected'] for r in rows)
         out = dict(property=pid, check_exit=crc, corrupted_traces=col.traces, corruptions=total, rejected=rejected,
-                   reporter_failures=col.crashes, fields_bound=bound, fields_never_rejected=unbound, wall_s=round(time.time() - t0, 1))
+                   reporter_failures=col.crashes, out_of_shape_corruptions_retried=col.artefacts, fields_bound=bound, fields_never_rejected=unbound, wall_s=round(time.time() - t0, 1))
         with open(os.path.join(vlib.VERIF, 'selftest', pid + '.json'), 'w') as f:
             json.dump(out, f, indent=1, sort_keys=True)
         print('SELFTEST %s: %d corruptions in %d traces, %d rejected (%d field paths bound, %d never rejected), %d reporter failure(s)'
               % (pid, total, col.traces, rejected, len(bound), len(unbound), len(col.crashes)))
         for c in col.crashes[:3]:
-            print('  REPORTER FAILURE in %s: %s' % (c['module'], c['error'][:600].replace('\n', ' | ')))
+            print('  REPORTER FAILURE in %s: %s' % (c['module'], c['error'][:400].replace('\n', ' | ')))
         if col.crashes or crc != 0 or total == 0 or rejected == 0:
             rc = 1
     return rc
